@@ -1269,6 +1269,19 @@ func (x *c16Runner) genCase(sig *c16Sig) (*c16Case, map[string]*c16Val) {
 			if sig.structByName(p.Ty.Base) != nil {
 				x.r.hist("case_split_map_over_struct_param")
 			}
+		} else if splitMode == 2 && p.Ty.MD > 0 && c.Rng.Intn(2) == 0 {
+			// a typed-map (or array-of-typed-map) parameter split over a map:
+			// a map of maps, for which there is no type id (finding C16-N7)
+			split = true
+			vals := make([]*c16Val, len(keys))
+			for i := range keys {
+				vals[i] = g.genTyped(p.Ty, true, -1, nil)
+			}
+			v = g.obj(keys, vals, false)
+			x.r.hist("case_split_map_over_typed_map_param")
+			if sig.structByName(p.Ty.Base) != nil {
+				x.r.hist("case_split_map_over_typed_map_of_struct_param")
+			}
 		} else {
 			v = g.genTyped(p.Ty, true, -1, nil)
 		}
@@ -1927,6 +1940,11 @@ func runC16(c *Ctx) {
 		nsig, per, nflt = 3600, 24, 400000
 	}
 	x.floats(nflt)
+	nstr := 1500
+	if c.Thorough {
+		nstr = 15000
+	}
+	x.strs(nstr)
 	for i := 0; i < nsig; i++ {
 		sig := c16GenSig(c, i)
 		if err := sig.write(); err != nil {
@@ -1986,6 +2004,7 @@ func runC16(c *Ctx) {
 		for j := 0; j < per/3+1; j++ {
 			x.directionF(sig, ast)
 		}
+		x.refsAliases(sig)
 		if i%4 == 0 {
 			x.multiFile(sig)
 		}
